@@ -192,7 +192,7 @@ func ruleMapDelegates(c *Ctx, r *R) {
 				if !ok || len(ret.Results) == 0 {
 					return
 				}
-				for _, lf := range valueLeaves(ret.Results[len(ret.Results)-1], nil, 0) {
+				for _, lf := range valueLeaves(returnedValue(ret, len(ret.Results)-1), nil, 0) {
 					res := lf.v
 					if k, isC := res.(*ssa.Const); isC {
 						// `return typed, true` on a path where sync.Map's own ok is known to be true IS sync.Map's answer
@@ -350,7 +350,7 @@ func ruleFutureOrder(c *Ctx, r *R) {
 			// and the value read is what is returned
 			retd := false
 			for _, ref := range *ld.Referrers() {
-				if ret, ok := ref.(*ssa.Return); ok && ret.Results[0] == ssa.Value(ld) {
+				if ret, ok := ref.(*ssa.Return); ok && returnedValue(ret, 0) == ssa.Value(ld) {
 					retd = true
 				}
 			}
@@ -365,7 +365,7 @@ func ruleFutureOrder(c *Ctx, r *R) {
 					if !ok || len(ret.Results) != 1 {
 						return
 					}
-					ex, ok := ret.Results[0].(*ssa.Extract)
+					ex, ok := returnedValue(ret, 0).(*ssa.Extract)
 					if !ok || ex.Index != 0 {
 						return
 					}
@@ -555,7 +555,7 @@ func ruleWatchable(c *Ctx, r *R) {
 				var out []leaf
 				instrs(cal, func(bb *ssa.BasicBlock, i int, in ssa.Instruction) {
 					if ret, ok := in.(*ssa.Return); ok && len(ret.Results) == 1 {
-						out = append(out, leaves(ret.Results[0], bb, d+1)...)
+						out = append(out, leaves(returnedValue(ret, 0), bb, d+1)...)
 					}
 				})
 				if len(out) > 0 {
@@ -573,8 +573,8 @@ func ruleWatchable(c *Ctx, r *R) {
 			return
 		}
 		// `return w.Value()`: a retry from the top; decided at the returns it ends in
-		if e0, ok := ret.Results[0].(*ssa.Extract); ok {
-			if e1, ok := ret.Results[1].(*ssa.Extract); ok && e0.Tuple == e1.Tuple && e0.Index == 0 && e1.Index == 1 {
+		if e0, ok := returnedValue(ret, 0).(*ssa.Extract); ok {
+			if e1, ok := returnedValue(ret, 1).(*ssa.Extract); ok && e0.Tuple == e1.Tuple && e0.Index == 0 && e1.Index == 1 {
 				if call, ok := e0.Tuple.(*ssa.Call); ok && staticCallee(&call.Call) == val {
 					return
 				}
@@ -582,7 +582,7 @@ func ruleWatchable(c *Ctx, r *R) {
 		}
 		n++
 		key := "xsync.Watchable.Value|return#" + itoa(n)
-		chv := ret.Results[1]
+		chv := returnedValue(ret, 1)
 		// the placeholder's channel returned directly (the MakeChan stored into it, or its field)
 		if _, ok := chv.(*ssa.MakeChan); ok {
 			sawPlaceholder = true
@@ -620,7 +620,7 @@ func ruleWatchable(c *Ctx, r *R) {
 				if ex.Index >= len(rt.Results) {
 					return
 				}
-				if ld, ok := rt.Results[ex.Index].(*ssa.UnOp); ok {
+				if ld, ok := returnedValue(rt, ex.Index).(*ssa.UnOp); ok {
 					if fa, ok := ld.X.(*ssa.FieldAddr); ok {
 						if prm, ok := fa.X.(*ssa.Parameter); ok {
 							for k, q := range cal.Params {
@@ -637,7 +637,7 @@ func ruleWatchable(c *Ctx, r *R) {
 			}
 			return base
 		}
-		baseT, baseC := fieldBase(ret.Results[0]), fieldBase(chv)
+		baseT, baseC := fieldBase(returnedValue(ret, 0)), fieldBase(chv)
 		if baseC == ssa.Value(empty) {
 			sawPlaceholder = true
 			r.ok(casOK(b), key, retPos(ret), "the placeholder's channel may be returned only when the CompareAndSwap succeeded; otherwise no Set will ever close it and the observer blocks forever on a stale value")
